@@ -1512,12 +1512,39 @@ class Gen(object):
         kw = {'overflow': 'saturate'}
         if r.random() < 0.6:
             kw['rounding'] = r.choice(ROUNDINGS)
+        if r.random() < 0.1:
+            # integers around the 64-bit marks in an object-dtype array (what NumPy makes of Python
+            # integers it cannot hold): one sign only, or both
+            items = [sign * ((1 << r.choice([62, 63, 63, 64, 65])) + r.choice([-1, 0, 0, 1, r.randrange(1 << 30)]))]
+            if r.random() < 0.5:
+                items.append(r.choice([0, 1, sign * 3, -sign * 2, sign * (1 << 63)]))
+            arr = ['a', 'object', [len(items)], [[it, 0] for it in items]]
+            q2 = r.random()
+            pred2 = lambda o: self.is_real(o) and o.config.overflow == 'saturate' and o.n_frac >= 0 and not o.scaled
+            ks, i = self.pick(pred2)
+            if q2 < 0.4 or ks is None:
+                return {'op': 'new', 'val': arr, 'fmt': fmt, 'kw': kw, 'raw': r.random() < 0.5}
+            if q2 < 0.7:
+                return {'op': 'set_raw', 'slot': self.cands().index(i), 'val': arr}
+            return {'op': 'call', 'slot': self.cands().index(i), 'val': arr, 'via': r.choice(['call', 'set_val'])}
         if val[0] == 'i' and r.random() < 0.25:
             # a list mixing huge and ordinary Python integers, both signs
             items = [val, ['i', r.randint(-5, 5)]]
             if r.random() < 0.5:
                 items.append(['i', -val[1] + r.randint(-3, 3)])
             r.shuffle(items)
+            if r.random() < 0.4:
+                # the same integers as an object-dtype array (NumPy's own container for Python integers)
+                arr = ['a', 'object', [len(items)], [[it[1], 0] for it in items]]
+                q2 = r.random()
+                if q2 < 0.5:
+                    return {'op': 'new', 'val': arr, 'fmt': fmt, 'kw': kw, 'raw': r.random() < 0.4}
+                pred2 = lambda o: self.is_real(o) and o.config.overflow == 'saturate' and o.n_frac >= 0 and not o.scaled
+                ks, i = self.pick(pred2)
+                if ks is not None:
+                    if r.random() < 0.5:
+                        return {'op': 'set_raw', 'slot': self.cands().index(i), 'val': arr}
+                    return {'op': 'call', 'slot': self.cands().index(i), 'val': arr, 'via': r.choice(['call', 'set_val'])}
             return {'op': 'new', 'val': ['l', items], 'fmt': fmt, 'kw': kw}
         q = r.random()
         if q < 0.4:
